@@ -43,8 +43,17 @@ def site(case):
 
 def unit_bound(style):
     """spell sample-count bounds with explicit units (sampling period 1 s)"""
-    def b(I):
+    count = [0]
+
+    def b(I, style=style):
         lo, hi = I
+        if style in ('alternate', 'alternate2'):
+            # every interval of the formula in another notation than its neighbour (outermost first)
+            cyc = ('s_both', 'ms_both', 'plain', 'us_begin') if style == 'alternate' else ('ms_end', 'plain', 'mixed', 's_both')
+            style = cyc[count[0] % len(cyc)]
+            count[0] += 1
+        if style == 'plain':
+            return '[%d,%d]' % (lo, hi)
         if style == 'ms_both':
             return '[%dms,%dms]' % (lo * 1000, hi * 1000)
         if style == 'ms_end':
@@ -59,7 +68,7 @@ def unit_bound(style):
     return b
 
 
-UNIT_STYLES = ('ms_both', 'ms_end', 's_both', 'mixed', 'us_begin')
+UNIT_STYLES = ('ms_both', 'ms_end', 's_both', 'mixed', 'us_begin', 'alternate', 'alternate2')
 
 
 def formula_set(tier):
